@@ -80,6 +80,11 @@ def variants(src):
 # genuine defects that are recorded rather than repaired: replayed on every run (see known_findings.json)
 FINDING_PROGRAMS = [
     ("generator-differs",
+     "module KfC15c\n  def *w(): Int\n    var i = 0\n    var g = (||: Int -> 0)\n    while i < 3\n      i = i + 1\n      yield i\n"
+     "      if i == 1\n        g = (||: Int -> i)\n      end\n    end\n    0 + g.call()\n  end\nend\n"
+     "for gv in KfC15c.w()\n  println((gv).inspect)\nend\n",
+     ("val", "1\n2\n3\n3\n")),
+    ("generator-differs",
      "module KfC15a\n  def f0(): Int\n    7\n  end\n  def *w(p: Int): Int\n    f0()\n  end\nend\n"
      "for gv in KfC15a.w(5)\n  println((gv).inspect)\nend\n",
      ("val", "7\n")),
